@@ -523,10 +523,6 @@ def install(m):
     def fmt_errorf(m, alt, fr, ins, args, work):
         return Iface("$error", Opaque(("fmt", args[0] if type(args[0]) is str else "?")))
 
-    @reg("fmt.Sprintf")
-    def fmt_sprintf(m, alt, fr, ins, args, work):
-        return Opaque(("fmt", args[0] if type(args[0]) is str else "?"))
-
     @reg("fmt.Sprint")
     def fmt_sprint(m, alt, fr, ins, args, work):
         return Opaque(("fmt", "sprint"))
@@ -625,6 +621,221 @@ def install(m):
     @reg(("$rtype", "String"))
     def rtype_string(m, alt, fr, ins, args, work):
         return args[0]
+
+    # ------------------------------------------------------------------ reflect.Value / Kind (contracts of the reflect package)
+    KIND = {"bool": 1, "int": 2, "int8": 3, "int16": 4, "int32": 5, "int64": 6, "uint": 7, "uint8": 8, "uint16": 9,
+            "uint32": 10, "uint64": 11, "uintptr": 12, "float32": 13, "float64": 14, "complex64": 15, "complex128": 16,
+            "string": 24, "byte": 8, "rune": 5}
+    KIND_NAMES = {1: "bool", 2: "int", 3: "int8", 4: "int16", 5: "int32", 6: "int64", 7: "uint", 8: "uint8", 9: "uint16",
+                  10: "uint32", 11: "uint64", 12: "uintptr", 13: "float32", 14: "float64", 17: "array", 18: "chan", 19: "func",
+                  20: "interface", 21: "map", 22: "ptr", 23: "slice", 24: "string", 25: "struct", 0: "invalid"}
+
+    def kind_of(tkey):
+        if tkey is None:
+            return 0
+        if tkey.startswith("$"):
+            return 22
+        t = m.T(tkey)
+        k = t["kind"]
+        if k == "basic":
+            return KIND.get(t["basic"], KIND.get(t.get("cls"), 0))
+        return {"pointer": 22, "slice": 23, "array": 17, "map": 21, "struct": 25, "interface": 20, "chan": 18, "func": 19}.get(k, 0)
+    m.kind_of = kind_of
+
+    def rv_of(v):
+        if v is None:
+            return ("rv", None, None)
+        if type(v) is Union:
+            return lift1(v, rv_of)
+        return ("rv", v.t, v.v)
+
+    @reg("reflect.ValueOf")
+    def reflect_valueof(m, alt, fr, ins, args, work):
+        return rv_of(args[0])
+
+    @reg(("$rtype", "Kind"))
+    def rtype_kind(m, alt, fr, ins, args, work):
+        return kind_of(args[0])
+
+    def rvfn(name):
+        def deco(f):
+            def g(m, alt, fr, ins, args, work):
+                rv = args[0]
+                if type(rv) is Union:
+                    raise I._NeedSplitArg(0)
+                return f(m, alt, ins, rv, args[1:])
+            R["(reflect.Value)." + name] = (False, g)
+            return f
+        return deco
+
+    @rvfn("Kind")
+    def rv_kind(m, alt, ins, rv, rest):
+        return kind_of(rv[1])
+
+    @rvfn("IsValid")
+    def rv_isvalid(m, alt, ins, rv, rest):
+        return rv[1] is not None
+
+    @rvfn("Elem")
+    def rv_elem(m, alt, ins, rv, rest):
+        k = kind_of(rv[1])
+        if k == 22:
+            p = rv[2]
+            if p is None:
+                return ("rv", None, None)
+            if type(p) is Union:
+                raise Unsupported("reflect Elem of union pointer")
+            return ("rv", m.T(rv[1])["elem"], m.load(alt, p))
+        if k == 20:
+            return rv_of(rv[2])
+        m.do_panic(alt, Opaque("reflect: call of reflect.Value.Elem on %s Value" % KIND_NAMES.get(k)), ins["pos"] if ins else "")
+        raise _Panicked()
+
+    def rv_need(m, alt, ins, rv, kinds, meth):
+        k = kind_of(rv[1])
+        if k not in kinds:
+            m.do_panic(alt, Opaque("reflect: call of reflect.Value.%s on %s Value" % (meth, KIND_NAMES.get(k))), ins["pos"] if ins else "")
+            raise _Panicked()
+        return k
+
+    def widen(m, tkey, v, signed):
+        ii = m.intinfo(tkey)
+        if is_int_conc(v):
+            return v
+        b = m.bv(v, ii[0])
+        if ii[0] == 64:
+            return b
+        return z3.SignExt(64 - ii[0], b) if ii[1] else z3.ZeroExt(64 - ii[0], b)
+
+    @rvfn("Int")
+    def rv_int(m, alt, ins, rv, rest):
+        rv_need(m, alt, ins, rv, (2, 3, 4, 5, 6), "Int")
+        return widen(m, rv[1], rv[2], True)
+
+    @rvfn("Uint")
+    def rv_uint(m, alt, ins, rv, rest):
+        rv_need(m, alt, ins, rv, (7, 8, 9, 10, 11, 12), "Uint")
+        return widen(m, rv[1], rv[2], False)
+
+    @rvfn("Float")
+    def rv_float(m, alt, ins, rv, rest):
+        rv_need(m, alt, ins, rv, (13, 14), "Float")
+        return rv[2]
+
+    @rvfn("Bool")
+    def rv_bool(m, alt, ins, rv, rest):
+        rv_need(m, alt, ins, rv, (1,), "Bool")
+        return rv[2]
+
+    @rvfn("String")
+    def rv_string(m, alt, ins, rv, rest):
+        if kind_of(rv[1]) == 24:
+            return rv[2]
+        return "<%s Value>" % KIND_NAMES.get(kind_of(rv[1]))
+
+    @rvfn("IsNil")
+    def rv_isnil(m, alt, ins, rv, rest):
+        rv_need(m, alt, ins, rv, (18, 19, 20, 21, 22, 23), "IsNil")
+        v = rv[2]
+        if type(v) is Slice:
+            return v.obj is None
+        return v is None
+
+    # ------------------------------------------------------------------ fmt verbs on scalars (contract level)
+    def fmt_scalar(m, alt, verb, a):
+        """a: interface value (plain).  '%v' of an integer is its decimal form (FormatInt contract), of a float the
+        shortest representation that parses back (FormatFloat contract); '%f' has 6 decimals"""
+        if a is None:
+            return "<nil>" if verb == "%v" else "%!f(<nil>)"
+        tk, v = a.t, a.v
+        if tk.startswith("$"):
+            return Opaque(("fmt", verb, tk))
+        t = m.T(tk)
+        if t["kind"] != "basic":
+            return Opaque(("fmt", verb, tk))
+        c = t["cls"]
+        if c == "int" and verb == "%v":
+            if is_int_conc(v):
+                return str(v)
+            return Opaque(("FormatInt", widen(m, tk, v, t["signed"]), 10, t["signed"]))
+        if c == "float":
+            if verb == "%f":
+                if isinstance(v, float):
+                    return "%f" % v
+                return Opaque(("FormatFloatF6", v))
+            if isinstance(v, float) and v == int(v) and abs(v) < 1e15:
+                return str(int(v))
+            return Opaque(("FormatFloat", v))
+        if c == "bool" and verb == "%v":
+            if is_bool_conc(v):
+                return "true" if v else "false"
+            return Opaque(("FormatBool", v))
+        if c == "string" and verb == "%v":
+            return v
+        return Opaque(("fmt", verb, tk))
+
+    def sprintf_model(m, alt, fr, ins, args, work):
+        fmt_ = args[0]
+        if type(fmt_) is str and fmt_ in ("%v", "%f", "%d", "%s") and type(args[1]) is Slice and args[1].len == 1:
+            a = I.slice_elems(m, alt, args[1])[0]
+            verb = "%v" if fmt_ in ("%d", "%s") else fmt_
+            if type(a) is Union:
+                return mk_union([(g, fmt_scalar(m, alt, verb, x)) for g, x in a.alts])
+            return fmt_scalar(m, alt, verb, a)
+        return Opaque(("fmt", fmt_ if type(fmt_) is str else "?"))
+    R["fmt.Sprintf"] = (False, sprintf_model)
+
+    @reg("strconv.ParseInt")
+    def strconv_parseint(m, alt, fr, ins, args, work):
+        s, base, bits = args
+
+        def p(x):
+            if type(x) is str:
+                import re
+                if base == 10 and re.fullmatch(r"[+-]?[0-9]+(_?[0-9]+)*", x) and "_" not in x:
+                    v = int(x)
+                    if -2 ** 63 <= v < 2 ** 63:
+                        return (v, None)
+                    return (2 ** 63 - 1 if v > 0 else -2 ** 63, Iface("$error", "strconv.ParseInt: value out of range"))
+                return (0, Iface("$error", "strconv.ParseInt: invalid syntax"))
+            if type(x) is Opaque and type(x.what) is tuple and x.what[0] == "FormatInt" and x.what[2] == 10:
+                v = x.what[1]
+                if x.what[3]:
+                    return (v, None)
+                # formatted as unsigned: parses iff below 2^63
+                big = _n(z3.ULT(m.bv(v, 64), z3.BitVecVal(2 ** 63, 64))) if not is_int_conc(v) else v < 2 ** 63
+                return (merge(big, v, 2 ** 63 - 1), merge(big, None, Iface("$error", "strconv.ParseInt: value out of range")))
+            if type(x) is Opaque:
+                return (0, Iface("$error", "strconv.ParseInt: invalid syntax (opaque)"))
+            raise Unsupported("ParseInt of %r" % (x,))
+        r = lift1(s, p)
+        if type(r) is Union:
+            return (mk_union([(g, x[0]) for g, x in r.alts]), mk_union([(g, x[1]) for g, x in r.alts]))
+        return r
+
+    @reg("strconv.ParseFloat")
+    def strconv_parsefloat(m, alt, fr, ins, args, work):
+        s = args[0]
+
+        def p(x):
+            if type(x) is str:
+                try:
+                    if x.strip() != x or x == "":
+                        raise ValueError
+                    return (float(x), None)
+                except ValueError:
+                    return (0.0, Iface("$error", "strconv.ParseFloat: invalid syntax"))
+            if type(x) is Opaque and type(x.what) is tuple and x.what[0] == "FormatFloat":
+                return (x.what[1], None)
+            if type(x) is Opaque and type(x.what) is tuple and x.what[0] == "FormatInt":
+                raise Unsupported("ParseFloat of formatted symbolic int")
+            if type(x) is Opaque:
+                return (0.0, Iface("$error", "strconv.ParseFloat: invalid syntax (opaque)"))
+            raise Unsupported("ParseFloat of %r" % (x,))
+        r = lift1(s, p)
+        if type(r) is Union:
+            return (mk_union([(g, x[0]) for g, x in r.alts]), mk_union([(g, x[1]) for g, x in r.alts]))
+        return r
 
     # ------------------------------------------------------------------ math/bits
     @reg("math/bits.OnesCount64")
